@@ -46,7 +46,13 @@ func genC12() *rapid.Generator[C12Case] {
 		o := bt.FilterOpts{Fams: c.Fams, Keys: keys, Quals: quals, Vals: c05Vals, InvalidPct: invalidPct}
 		step := rapid.Custom(func(t *rapid.T) bt.Op {
 			op := bt.Op{Table: tbl, Key: rapid.SampledFrom(keys).Draw(t, "key"), Clock: bt.I64(rapid.SampledFrom([]int64{1000, 5000, 12345678}).Draw(t, "clock"))}
-			if rapid.IntRange(0, 9).Draw(t, "kind") < 4 {
+			kind := rapid.IntRange(0, 9).Draw(t, "kind")
+			if kind == 9 {
+				// a ReadModifyWriteRow without rules: accepted or rejected, but it must not create a row
+				op.K = "RMW"
+				return op
+			}
+			if kind < 4 {
 				op.K = "MutateRow"
 				op.Muts = bt.GenMuts(c.Fams, 1, 4, 0, quals...).Draw(t, "muts")
 				return op
@@ -92,6 +98,9 @@ func runC12(c C12Case, ev *vt.Ev) *vt.Failure {
 			res := s.Exec(op)
 			if mis := m.Step(op, res); mis != "" {
 				return fail("C12", i, op, mis)
+			}
+			if op.K == "RMW" {
+				labels["rmw-without-rules"] = true
 			}
 			continue
 		}
